@@ -23,18 +23,22 @@
   * `format_spec`     : `Decimal.format d buf args = .ok (args, buf ++ Spec.fmtSpec …)` for every finite
         `d`, verbs `eEfFgG`, every precision (absent, or `< 2^56`), width `< 2^62`, all flag sets
         without `0`+`-`; includes the `%g` switch-over by the exponent AFTER rounding and `#`
-  * `parsed_args_ok`  : every parsed spec has `0 ≤ width < 10^6` and never `0` with `-`
+  * `parsed_args_ok`  : every parsed spec has `0 ≤ width < 10^6`, precision −1 or in `[0, 10^6)`, and
+        never `0` with `-`
   * `decimal_append_spec`, `decimal_append_special`, `decimal_append_noverb` : `Decimal.Append`
   * `append_spec`, `format_fn_spec` : the API functions `Append(buf, d, fmt, prec)` / `Format(d, fmt, prec)`
         for `prec ≥ 0` (verbs `e E f g G`)
 
-  FINDING (outside the precisions the property quantifies over): `parseFormat` lets the precision
-  accumulator run on after it saturated to −1; a 26-digit precision numeral `1` followed by 25 zeros
-  wraps the `int` and yields precision 8446744073709551616 (`precision_wrap` below), which
-  `Decimal.Append` would then try to honour.  Hence the hypothesis `prec < 2^56` of
-  `decimal_append_spec` cannot be dropped.
+  * `decimal_append_total` : C20 for `Decimal.Append` — every `d`, buffer and spec byte string
+
+  FINDING, FIXED in /repo commit 1d99a24: `parseFormat` used to let the precision accumulator run on
+  after it had saturated to −1; the 26-digit precision numeral `1` followed by 25 zeros wrapped the
+  `int` to 8446744073709551616, and `Decimal.Append(nil, ".10000000000000000000000000f")` died with
+  "fatal error: out of memory".  Now a saturated precision stays −1 (`Ex.precision_saturates`), every
+  parsed spec has a precision in `{−1} ∪ [0, 10^6)` (`parsed_args_ok`), `decimal_append_spec` needs no
+  bound on the precision, and the output is bounded (`decimal_append_total`).
 -/
-import D128.Proofs.LayoutApi
+import D128.Proofs.LayoutTotal
 set_option autoImplicit false
 
 namespace Props.C07
@@ -156,24 +160,27 @@ theorem format_spec (d : Gen.Decimal) (buf : Go.Bytes) (args : Gen.formatArgs)
   rw [← h1, show Ly.coefOf d = c from h2.symm, show Ly.expoOf d = e from h3.symm] at this
   exact this
 
-/-- every parsed spec (any byte string): width in `[0, 10^6)`, and `0` never together with `-` -/
+/-- every parsed spec (ANY byte string): width in `[0, 10^6)`, precision absent (−1) or in
+`[0, 10^6)`, and `0` never together with `-` -/
 theorem parsed_args_ok (L : List UInt8) :
     0 ≤ (Dg.parseSpec L).wid.toInt ∧ (Dg.parseSpec L).wid.toInt < 1000000 ∧
-      ((Dg.parseSpec L).padRight = true → (Dg.parseSpec L).padZero = false) :=
-  Ly.argsOK_parseSpec L
+      ((Dg.parseSpec L).prec.toInt = -1 ∨
+        (0 ≤ (Dg.parseSpec L).prec.toInt ∧ (Dg.parseSpec L).prec.toInt < 1000000)) ∧
+      ((Dg.parseSpec L).padRight = true → (Dg.parseSpec L).padZero = false) := by
+  obtain ⟨h0, h1, h2⟩ := Ly.argsOK_parseSpec L
+  exact ⟨h0, h1, Dg.precOK_parseSpec L, h2⟩
 
 /-! ## 4. `Decimal.Append` -/
 
 /-- **`Decimal.Append(buf, spec)` = `buf ++ fmtSpec (parsed spec)`** for a finite `d` and EVERY byte
 string `spec` whose parse (`Dg.parseSpec`; `parseFormat_spec`, `parseFormat_grammar` in `C07`) ends in
-one of the six verbs with a precision below `2^56` (absent included). -/
+one of the six verbs — whatever flags, width and precision numerals it contains. -/
 theorem decimal_append_spec (d : Gen.Decimal) (buf spec : Go.Bytes)
     (neg : Bool) (c : Nat) (e : Int) (hfin : 𝔳[d] = .fin neg c e)
     (hs : spec.size < 2 ^ 63) (hb : buf.size < 2 ^ 61)
     (hv : (Dg.parseSpec spec.toList).verb = 101 ∨ (Dg.parseSpec spec.toList).verb = 69 ∨
       (Dg.parseSpec spec.toList).verb = 102 ∨ (Dg.parseSpec spec.toList).verb = 70 ∨
-      (Dg.parseSpec spec.toList).verb = 103 ∨ (Dg.parseSpec spec.toList).verb = 71)
-    (hprec : (Dg.parseSpec spec.toList).prec.toInt < 2 ^ 56) :
+      (Dg.parseSpec spec.toList).verb = 103 ∨ (Dg.parseSpec spec.toList).verb = 71) :
     ∃ r, Gen.Decimal.Append d buf spec = .ok r ∧
       Ly.bstr r = Ly.bstr buf ++ Spec.fmtSpec (Ly.flagsOf (Dg.parseSpec spec.toList))
         (Ly.chr (Dg.parseSpec spec.toList).verb) (Ly.precOf (Dg.parseSpec spec.toList))
@@ -185,7 +192,7 @@ theorem decimal_append_spec (d : Gen.Decimal) (buf spec : Go.Bytes)
   have hdec := Enc.interp_decompose d hsp
   rw [hfin] at hdec
   injection hdec with h1 h2 h3
-  have := Ly.decimal_append_finite d buf spec hsp hs hb hv hprec
+  have := Ly.decimal_append_finite d buf spec hsp hs hb hv
   rw [← h1, show Ly.coefOf d = c from h2.symm, show Ly.expoOf d = e from h3.symm] at this
   exact this
 
@@ -219,6 +226,34 @@ theorem decimal_append_noverb (d : Gen.Decimal) (buf spec : Go.Bytes) (hs : spec
     (hv : (Dg.parseSpec spec.toList).verb = 0) :
     Gen.Decimal.Append d buf spec = .ok (buf ++ Go.str "%!(NOVERB)") :=
   Ly.decimal_append_noverb d buf spec hs hv
+
+/-- **Totality of `Decimal.Append` (C20, "any format spec").**  Every bit pattern `d` (finite, NaN,
+infinite), every buffer below `2^61` bytes, EVERY byte string `spec` below `2^63` bytes:
+* `d` finite and the parsed verb present but none of `e E f F g G v` (`Ly.knownVerb`): the call ends
+  in the one arm that is not modelled, `fmt.Appendf` of the `%!verb(decimal128.Decimal=…)` notice,
+  after `d.String()` has returned normally — no panic of the library's own code;
+* otherwise it returns normally and appends at most `Ly.outBound` = 1 012 325 bytes (precision below
+  `10^6`, at most 6176 leading zeros and 6147 integer digits, sign, point, exponent; the width is
+  below `10^6`). -/
+theorem decimal_append_total (d : Gen.Decimal) (buf spec : Go.Bytes) (hs : spec.size < 2 ^ 63)
+    (hb : buf.size < 2 ^ 61) :
+    ((Dg.parseSpec spec.toList).verb ≠ 0 ∧ Gen.Decimal.isSpecial d = false ∧
+        ¬ Ly.knownVerb (Dg.parseSpec spec.toList).verb →
+      Gen.Decimal.Append d buf spec = .error (Go.Panic.unmodelled "fmt.Appendf")) ∧
+    (¬ ((Dg.parseSpec spec.toList).verb ≠ 0 ∧ Gen.Decimal.isSpecial d = false ∧
+        ¬ Ly.knownVerb (Dg.parseSpec spec.toList).verb) →
+      ∃ r, Gen.Decimal.Append d buf spec = .ok r ∧ r.size ≤ buf.size + Ly.outBound) :=
+  Ly.decimal_append_total d buf spec hs hb
+
+/-- the six float verbs through `Decimal.format`: at most `max width outBound` bytes are appended -/
+theorem format_size (d : Gen.Decimal) (buf : Go.Bytes) (args : Gen.formatArgs)
+    (hfin : Gen.Decimal.isSpecial d = false)
+    (hv : args.verb = 101 ∨ args.verb = 69 ∨ args.verb = 102 ∨ args.verb = 70 ∨
+      args.verb = 103 ∨ args.verb = 71)
+    (hp : Dg.PrecOK args) (W : Nat) (hW : args.wid.toInt = W) (hW' : W < 2 ^ 62)
+    (hb : buf.size < 2 ^ 61) (hprz : args.padRight = true → args.padZero = false) :
+    ∃ r, Gen.Decimal.format d buf args = .ok (args, r) ∧ r.size ≤ buf.size + max W Ly.outBound :=
+  Ly.format_size d buf args hfin hv hp W hW hW' hb hprz
 
 /-! ## 5. the API functions `Append` and `Format` with a non-negative precision -/
 
@@ -316,13 +351,13 @@ example : ∃ r, Gen.Decimal.format d999_75 #[] (args false false false false fa
 example : ∃ r, Gen.Decimal.Append d999_75 #[120] "0-12.2e".toUTF8.data = .ok r ∧
       Ly.bstr r = "x1.00e+03    ".toList := by
   obtain ⟨r, hr, hs⟩ := decimal_append_spec d999_75 #[120] "0-12.2e".toUTF8.data false 99975 (-2)
-    (by decide) (by decide) (by decide) (by decide) (by decide)
+    (by decide) (by decide) (by decide) (by decide)
   exact ⟨r, hr, by rw [hs]; decide⟩
 
 example : ∃ r, Gen.Decimal.Append d999_75 #[120] "-012.2e".toUTF8.data = .ok r ∧
       Ly.bstr r = "x1.00e+03    ".toList := by
   obtain ⟨r, hr, hs⟩ := decimal_append_spec d999_75 #[120] "-012.2e".toUTF8.data false 99975 (-2)
-    (by decide) (by decide) (by decide) (by decide) (by decide)
+    (by decide) (by decide) (by decide) (by decide)
   exact ⟨r, hr, by rw [hs]; decide⟩
 
 /-- `Decimal.Append(buf, "08f")` of −Inf: blanks, not zeros -/
@@ -354,10 +389,26 @@ example : Gen.digits.pad (default : Gen.digits) ((#[] : Go.Bytes) ++ ([49] : Lis
     (by decide) (by decide) (by decide) (by decide)]
   rfl
 
-/-- the precision accumulator of `parseFormat` wraps: precision numeral `1` followed by 25 zeros -/
-theorem precision_wrap :
-    (Dg.parseSpec (".1000000".toUTF8.data.toList ++ List.replicate 19 48 ++ [102])).prec =
-      8446744073709551616 := by decide
+/-- regression for the precision-wrap defect (fixed in /repo commit 1d99a24): the precision numeral
+`1` followed by 25 zeros used to parse to 8446744073709551616; it now saturates to −1 (absent) -/
+theorem precision_saturates :
+    (Dg.parseSpec (".1000000".toUTF8.data.toList ++ List.replicate 19 48 ++ [102])).prec = -1 := by
+  decide
+
+/-- … and `Decimal.Append` with that spec prints 999.75 with the default precision -/
+example : ∃ r, Gen.Decimal.Append d999_75 #[]
+      (".1000000".toUTF8.data.toList ++ List.replicate 19 48 ++ [102]).toArray = .ok r ∧
+      Ly.bstr r = "999.750000".toList := by
+  obtain ⟨r, hr, hs⟩ := decimal_append_spec d999_75 #[]
+    (".1000000".toUTF8.data.toList ++ List.replicate 19 48 ++ [102]).toArray false 99975 (-2)
+    (by decide) (by decide) (by decide) (by decide)
+  exact ⟨r, hr, by rw [hs]; decide⟩
+
+/-- an unknown verb ends in the unmodelled `fmt.Appendf` arm, everything else returns normally -/
+example : Gen.Decimal.Append d999_75 #[] "8.3q".toUTF8.data =
+    .error (Go.Panic.unmodelled "fmt.Appendf") :=
+  (decimal_append_total d999_75 #[] "8.3q".toUTF8.data (by decide) (by decide)).1
+    ⟨by decide, by decide, by unfold Ly.knownVerb; decide⟩
 
 /-- `fmtE` / `fmtF` on the record `Decimal.digits` produces for 999.75 -/
 example : ∃ (d : Gen.digits) (r : Go.Bytes), Dg.WF d ∧
